@@ -241,9 +241,17 @@ type mboxKeepalive struct {
 	DeadAtMs int    `json:"dead_at_ms"` // then the relay swallows everything
 	LatMs    int    `json:"lat_ms"`
 	Pending  int    `json:"pending"` // writes issued right before the relay goes silent
+	// Refreshes: the checks run on the (1+Refreshes)-th connection of the
+	// session (RefreshClientConn / RefreshServerConn).
+	Refreshes int `json:"refreshes,omitempty"`
 }
 
 func runMboxKeepalive(t *testing.T, c *mboxKeepalive) (violation string) {
+	v, _ := runMboxKeepaliveX(t, c)
+	return v
+}
+
+func runMboxKeepaliveX(t *testing.T, c *mboxKeepalive) (violation string, skipped bool) {
 	bo := vnet.InBubble(t, 180*time.Second, func() {
 		r := relay.New(ms(c.LatMs))
 		p, err := newMailboxPairOn(r, c.Seed)
@@ -252,6 +260,42 @@ func runMboxKeepalive(t *testing.T, c *mboxKeepalive) (violation string) {
 			return
 		}
 		defer p.Close()
+		for i := 0; i < c.Refreshes; i++ {
+			if !p.Refresh(60 * time.Second) {
+				skipped = true
+				return
+			}
+		}
+		if c.Refreshes > 0 {
+			// a later connection can be killed right after its handshake by
+			// what the previous one left in the relay streams (recorded C10
+			// findings); only a connection that carries a first exchange is
+			// judged
+			// (both directions, and still alive a few seconds later: the
+			// leftovers are delivered right behind the handshake packets)
+			for round := 0; round < 2; round++ {
+				if round == 1 {
+					time.Sleep(3 * time.Second)
+				}
+				for _, d := range []struct{ w, r net.Conn }{{p.C, p.S}, {p.S, p.C}} {
+					d := d
+					go func() { _, _ = d.w.Write([]byte("hello")) }()
+					buf := make([]byte, 16)
+					ok := make(chan bool, 1)
+					go func() { n, err := d.r.Read(buf); ok <- err == nil && string(buf[:n]) == "hello" }()
+					select {
+					case good := <-ok:
+						if !good {
+							skipped = true
+							return
+						}
+					case <-time.After(30 * time.Second):
+						skipped = true
+						return
+					}
+				}
+			}
+		}
 		start := time.Now()
 		type ev struct {
 			who string
@@ -374,19 +418,27 @@ func TestC13MailboxKeepalive(t *testing.T) {
 	}
 	rapid.Check(t, func(rt *rapid.T) {
 		c := &mboxKeepalive{
-			Seed:     rapid.Uint64().Draw(rt, "seed"),
-			IdleMs:   rapid.SliceOfN(rapid.SampledFrom([]int{0, 1000, 4999, 5000, 5001, 6999, 7000, 7001, 12000, 60000, 3600000}), 0, 3).Draw(rt, "idle"),
-			DeadAtMs: rapid.SampledFrom([]int{0, 1, 2500, 4999, 5000, 6999, 7000, 9000}).Draw(rt, "dead_at"),
-			LatMs:    rapid.SampledFrom([]int{0, 1, 50, 400}).Draw(rt, "lat"),
-			Pending:  rapid.SampledFrom([]int{0, 0, 1, 5, 19}).Draw(rt, "pending"),
+			Seed:      rapid.Uint64().Draw(rt, "seed"),
+			IdleMs:    rapid.SliceOfN(rapid.SampledFrom([]int{0, 1000, 4999, 5000, 5001, 6999, 7000, 7001, 12000, 60000, 3600000}), 0, 3).Draw(rt, "idle"),
+			DeadAtMs:  rapid.SampledFrom([]int{0, 1, 2500, 4999, 5000, 6999, 7000, 9000}).Draw(rt, "dead_at"),
+			LatMs:     rapid.SampledFrom([]int{0, 1, 50, 400}).Draw(rt, "lat"),
+			Pending:   rapid.SampledFrom([]int{0, 0, 1, 5, 19}).Draw(rt, "pending"),
+			Refreshes: rapid.SampledFrom([]int{0, 0, 1, 2}).Draw(rt, "refreshes"),
 		}
 		rec.Current("mbox_keepalive", c)
-		v := runMboxKeepalive(t, c)
+		v, skipped := runMboxKeepaliveX(t, c)
 		total := 0
 		for _, x := range c.IdleMs {
 			total += x
 		}
-		rec.Case(total > 50000 || c.Pending > 0, fmt.Sprintf("%+v", *c), "mailbox_keepalive")
+		labels := []string{"mailbox_keepalive"}
+		if c.Refreshes > 0 && !skipped {
+			labels = append(labels, "mailbox_keepalive_later_connection")
+		}
+		if skipped {
+			labels = append(labels, "later_connection_not_established")
+		}
+		rec.Case((total > 50000 || c.Pending > 0) && !skipped, fmt.Sprintf("%+v", *c), labels...)
 		if rec.WantSample() {
 			rec.Sample(c)
 		}
